@@ -171,6 +171,24 @@ func NewProxyTopo(impl SvcServer, o ProxyOpts) *ProxyTopo {
 	t.Ctx, t.Cancel = context.WithCancel(context.Background())
 	t.SPipe = NewPipe(t.Tap, PipeOpts{Name: "srv", Cap: o.Cap})
 	dial := func(id string) (goat.RpcReadWriter, error) {
+		if t.HasCallback {
+			// the proxy dials a name again only after the connection it had under that name has gone - and the
+			// application has been told so: a report that arrives after the replacement is up describes the wrong connection
+			dials, reports := 0, 0
+			for _, x := range t.Dialed {
+				if x == id {
+					dials++
+				}
+			}
+			for _, x := range t.Disconnects {
+				if x == id {
+					reports++
+				}
+			}
+			if reports < dials {
+				vsched.Fail("C17/order|redial-before-report", "the proxy dials %q for the %d. time but only %d of its earlier connections under that name have been reported to the disconnect callback (dialled %v, reported %v)", id, dials+1, reports, t.Dialed, t.Disconnects)
+			}
+		}
 		t.Dialed = append(t.Dialed, id)
 		if ch := t.SlowDial[id]; ch != nil {
 			<-ch
